@@ -3,10 +3,13 @@ from __future__ import annotations
 
 import warnings
 
+from . import formats_misc as _misc
 from .common import errname
 
 #: formats that have a Lean model (Model/Formats/*); grows as families are added
 MODELLED = ["md5_crypt", "apr_md5_crypt", "sha256_crypt", "sha512_crypt"]
+#: Misc family (scrypt, scram, fshp, argon2, django_argon2, libpass inspectors): adapters live in formats_misc.py
+MODELLED += _misc.NAMES
 
 #: the `Static` family (Model/Formats/Static.lean)
 STATIC = ["hex_md4", "hex_md5", "hex_sha1", "hex_sha256", "hex_sha512", "nthash", "lmhash", "bsd_nthash", "msdcc", "msdcc2",
@@ -28,6 +31,7 @@ DES_BCRYPT = ["des_crypt", "bsdi_crypt", "bigcrypt", "crypt16", "django_des_cryp
 MODELLED += DES_BCRYPT
 
 IDENTIFY_CHECKED += DES_BCRYPT
+IDENTIFY_CHECKED += _misc.NAMES
 
 #: the PBKDF family (Model/Formats/Pbkdf.lean)
 PBKDF_FAMILY = ["sha1_crypt", "pbkdf2_sha1", "pbkdf2_sha256", "pbkdf2_sha512", "ldap_pbkdf2_sha1", "ldap_pbkdf2_sha256",
@@ -48,6 +52,8 @@ def cps(s) -> str:
 
 def handler(name):
     warnings.simplefilter("ignore")
+    if name in _misc.ADAPTERS and name not in _misc.REGISTRY_NAMES:
+        return _misc.ADAPTERS[name]          # libpass inspectors / stubbed variants: no registry entry
     from passlib import registry
 
     return registry.get_crypt_handler(name)
@@ -97,6 +103,8 @@ def whole_validate(name, s) -> str:
 
 
 def parse_dump(name, s) -> str:
+    if name in _misc.ADAPTERS:
+        return _misc.parse_dump(name, s)
     h = handler(name)
     if is_wrapper(h):
         return parse_dump(h.wrapped.name, h._unwrap_hash(s))
@@ -115,11 +123,9 @@ def reparse_str(name, s) -> str:
 
 
 def reparse(name, s) -> str:
+    if name in _misc.ADAPTERS:
+        return _misc.reparse(name, s)
     return cps(reparse_str(name, s))
-
-
-def identify(name, s) -> str:
-    return "1" if handler(name).identify(s) else "0"
 
 
 def ctx_kwds(h) -> dict:
@@ -130,6 +136,16 @@ def ctx_kwds(h) -> dict:
     if "realm" in ck:
         kw["realm"] = "realm"
     return kw
+
+
+def identify(name, s) -> str:
+    if name in _misc.ADAPTERS:
+        return _misc.identify(name, s)
+    return "1" if handler(name).identify(s) else "0"
+
+
+def extra_cases(name, rng):
+    return _misc.ADAPTERS[name].extra_cases(rng) if name in _misc.ADAPTERS else []
 
 
 def cheap(h):
@@ -180,8 +196,17 @@ def gen_hashes(name, rng, n=6, vary_secret=False):
     return out
 
 
+def gen_model_hashes(name, rng, n=6):
+    """well-formed strings for the format-model suite (adapters build them without hashing: costs may be huge)"""
+    if name in _misc.ADAPTERS:
+        return _misc.ADAPTERS[name].gen(rng, n)
+    return gen_hashes(name, rng, n)
+
+
 def variants(h, name, s, rng):
     """well-formed variants: config-only forms, implicit/explicit default rounds, bytes input handled by caller"""
+    if name in _misc.ADAPTERS:
+        return _misc.ADAPTERS[name].variants(s, rng)
     out = [s]
     if s.count("$") >= 3:
         out.append(s.rsplit("$", 1)[0])           # config string (no checksum)
